@@ -1,0 +1,14 @@
+//go:build verif
+
+// Contracts for package loop, checked by /verif/govc (comment-only file).
+package loop
+
+// ---- C17: the SCEV construction terminates: the mutual recursion strictly decreases a measure bounded by the depth guard
+//@ func computeSCEV
+//@   noframe
+//@   decreases [C17.term] 2 * (MaxSCEVDepth + 1 - depth) + 1
+
+//@ func computeSCEVBody
+//@   noframe
+//@   requires [C17.term] depth <= MaxSCEVDepth
+//@   decreases [C17.term] 2 * (MaxSCEVDepth + 1 - depth)
